@@ -273,11 +273,14 @@ func (c05) Generate(tier string, yield func(*engine.Case) bool) {
 			return
 		}
 		src := d.Term.Render()
-		b, err := json.Marshal(d)
-		if err != nil {
-			panic(err)
+		lazy := func() json.RawMessage {
+			b, err := json.Marshal(d)
+			if err != nil {
+				panic(err)
+			}
+			return b
 		}
-		if !yield(&engine.Case{Family: fam, Key: tag + "|" + src, Src: src, Data: b}) {
+		if !yield(&engine.Case{Family: fam, Key: tag + "|" + src, Src: src, Lazy: lazy}) {
 			ok = false
 		}
 	}
